@@ -243,7 +243,9 @@ class Ledger(metaclass=LedgerRegistry):
         for account in funding_accounts:
             utxos = await account.get_utxos(no_tx=True, no_channel_info=True)
             for utxo in utxos:
-                estimators.append(utxo.get_estimator(self))
+                estimator = utxo.get_estimator(self)
+                if estimator.effective_amount > 0:  # costs more to spend than it is worth
+                    estimators.append(estimator)
         return estimators
 
     async def get_addresses(self, **constraints):
